@@ -45,7 +45,7 @@ func (s *TruncateTokenFilter) Filter(input analysis.TokenStream) analysis.TokenS
 }
 
 func TruncateTokenFilterConstructor(config map[string]interface{}, cache *registry.Cache) (analysis.TokenFilter, error) {
-	lenVal, ok := config["length"].(float64)
+	lenVal, ok := configNumber(config["length"])
 	if !ok {
 		return nil, fmt.Errorf("must specify length")
 	}
@@ -59,4 +59,18 @@ func init() {
 	if err != nil {
 		panic(err)
 	}
+}
+
+// configNumber reads a numeric option that arrives as float64 from JSON (a
+// reopened index) or as an int from a mapping built through the Go API.
+func configNumber(v interface{}) (float64, bool) {
+	switch n := v.(type) {
+	case float64:
+		return n, true
+	case int:
+		return float64(n), true
+	case int64:
+		return float64(n), true
+	}
+	return 0, false
 }
